@@ -222,6 +222,53 @@ Fixpoint check (n : node) : bool :=
     (fix all (l : list node) : bool := match l with [] => true | c :: r => check c && all r end) cs
   end.
 
+
+(* ---------------------------------------------------------------- validity questions (C07) *)
+Definition node_start_state (n : node) : nat := nt_start (ntype_of s (node_ty s n)).
+
+(* Node.content_match_at(index): ValueError when the prefix does not match *)
+Definition content_match_at (n : node) (index : nat) : res nat :=
+  match match_fragment (node_start_state n) (node_content n) 0 index with
+  | Some q => Ok q
+  | None => Err ErrValue
+  end.
+
+Definition sub_list {A} (l : list A) (from to : nat) : list A := firstn (to - from) (skipn from l).
+
+(* Node.can_replace(from, to, replacement, start, end) *)
+Definition can_replace (n : node) (from to : nat) (repl : list node) (start end_ : nat) : res bool :=
+  do q <- content_match_at n from;
+  match match_fragment q repl start end_ with
+  | None => Ok false
+  | Some q1 =>
+    match match_fragment q1 (node_content n) to (length (node_content n)) with
+    | None => Ok false
+    | Some q2 =>
+      if negb (valid_end q2) then Ok false
+      else Ok (forallb (fun c => allows_marks s (node_ty s n) (node_marks c)) (sub_list repl start end_))
+    end
+  end.
+
+(* Node.can_replace_with(from, to, type, marks) *)
+Definition can_replace_with (n : node) (from to : nat) (ty : nat) (ms : list mark) : res bool :=
+  if (match ms with [] => false | _ => true end) && negb (allows_marks s (node_ty s n) ms) then Ok false
+  else
+    do q <- content_match_at n from;
+    match match_type q ty with
+    | None => Ok false
+    | Some q1 =>
+      match match_fragment q1 (node_content n) to (length (node_content n)) with
+      | None => Ok false
+      | Some q2 => Ok (valid_end q2)
+      end
+    end.
+
+(* Node.can_append(other) *)
+Definition can_append (n other : node) : res bool :=
+  if negb (fsize (node_content other) =? 0) then
+    can_replace n (length (node_content n)) (length (node_content n)) (node_content other) 0 (length (node_content other))
+  else Ok (compatible_content (node_ty s n) (node_ty s other)).
+
 (* ---------------------------------------------------------------- resolved positions *)
 Record rpos := { rp_pos : nat; rp_path : list (node * nat * nat); rp_parent_offset : nat }.
 
